@@ -78,6 +78,11 @@ def rule_c(ctx):
     out_name = am.actual("cell_flux") or "cell_flux"
     ups = [s for s in ast.walk(f.node) if isinstance(s, ast.AugAssign) and isinstance(s.target, ast.Subscript) and norm(s.target.value) == out_name]
     per_axis = {}
+    if not ups or not all(isinstance(s.target.slice, ast.Tuple) for s in ups):
+        ctx.instance(R, 3)
+        ctx.ob(R, f.qname, "per-axis updates `cell_flux[<slices>, d] += ...` with literal slice tuples", False, "update statements with literal index tuples not found (computed index tuples are not evaluated)", f.node)
+        ctx.floor(R, 3)
+        return
     for s in ups:
         m_, ell = axis_slices(s.target)
         elts = s.target.slice.elts
@@ -175,6 +180,13 @@ def rule_d(ctx):
     for kind, forms in want.items():
         body = arms.get(kind)
         ok = body is not None and any(am.eq_block(body, list(fm)) for fm in forms)
+        if not ok and body is not None and kind == "tensor":
+            es = [c for s_ in body for c in ast.walk(s_) if isinstance(c, ast.Call) and norm(c.func) == "np.einsum" and c.args and isinstance(c.args[0], ast.Constant)]
+            if es:
+                sub = es[0].args[0].value.replace(" ", "")
+                ctx.ob(R, f.qname, "tensor cell quantity: orientation o reads the diagonal entry (o, o)", sub == "...ii->...i",
+                       f"np.einsum('{sub}', ...) does not extract the diagonal ('...ii->...i' would): off-diagonal entries enter the face average", es[0], evidence=True)
+                continue
         ctx.ob(R, f.qname, f"{kind} cell quantity: orientation o reads {'the scalar' if kind == 'scalar' else ('component o' if kind == 'vector' else 'the diagonal entry (o, o)')}", ok,
                str([norm(x)[:90] for x in (body or [])]), f.node)
     ctx.floor(R, 1)
@@ -202,9 +214,17 @@ def rule_e(ctx):
     tc = m.func(MOD, "FVTangentialFaceReconstruction.__call__")
     amt = AM(tc)
     nfl, cat = tc.params[1], tc.params[2]
-    ok = amt.has(tc.node, f"tf = [self.mat[d].dot({nfl}) for d in range(self.num_tangential_directions)]") is not None \
-        and amt.has(tc.node, f"if {cat}:\n    tf = np.concatenate(tf, axis=0)") is not None and amt.has(tc.node, "return tf") is not None
-    ctx.ob(R, tc.qname, "applying the operator: one block per tangential direction, blocks concatenated in direction order", ok, str(amt.show()), tc.node)
+    blocks_ok = amt.has(tc.node, f"tf = [self.mat[d].dot({nfl}) for d in range(self.num_tangential_directions)]") is not None and amt.has(tc.node, "return tf") is not None
+    ctx.ob(R, tc.qname, "applying the operator: one block self.mat[d] . normal_flux per tangential direction, in direction order", blocks_ok, str(amt.show()), tc.node)
+    joins = [n for n in ast.walk(tc.node) if isinstance(n, ast.If) and norm(n.test) == cat]
+    if len(joins) == 1 and len(joins[0].body) == 1 and isinstance(joins[0].body[0], ast.Assign) and isinstance(joins[0].body[0].value, ast.Call):
+        jc = joins[0].body[0].value
+        jn = norm(jc.func)
+        good = (jn == "np.concatenate" and (len(jc.args) == 1) and all(k.arg == "axis" and norm(k.value) == "0" for k in jc.keywords)) or (jn == "np.hstack" and len(jc.args) == 1 and not jc.keywords)
+        ctx.ob(R, tc.qname, "concatenate=True joins the blocks one after the other (np.concatenate(..., axis=0))", good,
+               f"the blocks are joined by `{norm(jc)[:80]}`: the stacked vector is not block 0 followed by block 1", jc, evidence=True)
+    else:
+        ctx.ob(R, tc.qname, "concatenate=True joins the blocks one after the other (np.concatenate(..., axis=0))", False, "joining statement not found", tc.node)
     r = m.func(MOD, "FVFullFaceReconstruction.__call__")
     am2 = AM(r)
     nf = r.params[1]
